@@ -754,6 +754,18 @@ class Term(Container):
                                           "multiple fock matrix elements with "
                                           f"intersecting indices: {self}")
             sub.update(sub_obj)
+        # chained fock matrix elements (f_ij f_jk): the index that replaces
+        # an index might be replaced itself -> follow the chain
+        for k in sub:
+            v, n_steps = sub[k], 0
+            while v in sub:
+                v, n_steps = sub[v], n_steps + 1
+                if n_steps > len(sub):
+                    raise NotImplementedError("Did not implement the case of "
+                                              "multiple fock matrix elements "
+                                              "with intersecting indices: "
+                                              f"{self}")
+            sub[k] = v
         # if term is part of a polynom -> return the sub dict and perform the
         # substitution in the polynoms parent term object.
         # provide the target indices to the returned expression, because
